@@ -236,7 +236,8 @@ impl GenOpts {
             escapes: t.chance(2, 3),
             raw_newline_strings: t.chance(1, 8),
             density: *t.pick(&[3u64, 6, 10]),
-            shuffle_positions: t.chance(1, 5),
+            // only C01 turns this on (its model comparison knows about the writer's reordering by position)
+            shuffle_positions: false,
         }
     }
 
